@@ -86,7 +86,8 @@ class Sign(Machine):
     assumptions = [
         "signatures are verified with an independent verifier (cryptography / pycryptodome primitives, own CBOR "
         "reader, own Sig_structure) against the public half of keys the harness generated",
-        "inputs already bearing a signature carry at most one (the domain the statement names)",
+        "inputs already bearing signatures carry one made by the tool, or one or two made by the harness signer in the "
+        "header layouts COSE allows (no key id, key id unprotected, key id a plain byte string)",
     ]
 
     def reach_floor(self, merged, prop, tier):
@@ -165,7 +166,12 @@ class Sign(Machine):
             if r < 0.08:
                 ops.append({"kind": "restart", "i": i})
                 continue
-            if (is_tree and r < 0.75) or (prop == "C09" and r < 0.25):
+            if 0.08 <= r < (0.20 if prop == "C09" else 0.12) and not is_tree:
+                # the envelope comes back from somebody else's signer: a valid COSE_Sign1 block in one of the header
+                # layouts COSE allows (no key id at all, key id unprotected, key id a plain byte string)
+                op = {"kind": "foreign_sign", "i": i, "in": src, "out": f"o{i}", "alg": s.choice(ALGS[:4]),
+                      "kid": s.choice(KIDS), "form": s.choice(["alg_only", "alg_only", "kid_unprotected", "kid_raw", "standard"])}
+            elif (is_tree and r < 0.75) or (prop == "C09" and r < 0.25):
                 root_name = src
                 op = {"kind": "signrec", "i": i, "in": src, "out": self._pick_out(s, src, slots, i),
                       "cfg_gen": s.u64() % (1 << 48), "break": s.choice([None, None, None, "absent", "notenv"]),
@@ -234,6 +240,8 @@ class Sign(Machine):
             model["_abstract"] = "skipped"
             return []
         before = len(host.rare.get("log", []))
+        if k == "foreign_sign":
+            return self._foreign_sign(host, model, op)
         if k == "sign1":
             vs = self._sign1(host, model, op, faults, prop)
         else:
@@ -295,6 +303,35 @@ class Sign(Machine):
         deps = {dn: self._describe(host, s.sub(dn), name, sub, feats, depth + 1) for dn, sub in shape["deps"].items()}
         g = gen.DescGen(s.sub("g", depth), feats, size=1)
         return g.envelope(payload_names=payloads or None, dep_names=deps or None)
+
+    def _foreign_sign(self, host, model, op):
+        data = host.read(model["slots"][op["in"]]["rel"])
+        try:
+            if len(cose.EnvelopeView(data).wrapper) > 2:
+                model["_abstract"] = "skipped"  # two signatures already
+                return []
+        except (cborr.CborError, IndexError, AttributeError):
+            model["_abstract"] = "skipped"
+            return []
+        key = world.make_private_key(host.seed, f"foreign-{op['i']}", KEYKIND_FOR_ALG[op["alg"]])
+        out = cose.sign_envelope(data, op["alg"], key, op["kid"], form=op["form"],
+                                 signature=None if op["alg"] not in ("es-256", "es-384", "es-521") else
+                                 world.det_ecdsa(key, cose.sig_structure(self._foreign_protected(op), cose.EnvelopeView(data).digest_bstr_content),
+                                                 Stream(host.seed, "foreign-nonce", op["i"])))
+        rel = self.odd_for(op["out"]) + ".suit"
+        host.write(rel, out)
+        model["slots"][op["out"]] = {"rel": rel, "shape": model["slots"][op["in"]].get("shape")}
+        ex = model["_extra"]
+        ex["foreign_signed_inputs"] = ex.get("foreign_signed_inputs", 0) + 1
+        model["_abstract"] = ("foreign_sign", op["form"])
+        host.log_line({"foreign_sign": op["out"], "form": op["form"], "alg": op["alg"]})
+        return []
+
+    @staticmethod
+    def _foreign_protected(op):
+        a = cose.SIGN_ALG_IDS[op["alg"]]
+        return {"alg_only": enc({1: a}), "kid_unprotected": enc({1: a}), "kid_raw": enc({1: a, 4: b"key-" + str(op["kid"]).encode()})}.get(
+            op["form"], enc({1: a, 4: enc(op["kid"])}))
 
     # -- single level -------------------------------------------------------------------------------------------------
     def _context(self, host, op):
